@@ -138,3 +138,18 @@ def attribute_writers(repo, attr):
             if hit:
                 out.append((owner.get(id(n)), n, _src(hit[0].value), hit[1], m))
     return out
+
+
+def normalised(f):
+    """A view of function *f* in which single-assignment locals that merely name an access path (`headers = self.headers`) are replaced by
+    that path (sa/normalize.py, unrestricted form).  Opt-in, for rules about functions in which such a local cannot be a snapshot of something
+    that changes underneath it (no other thread, nothing re-binds the attribute in the function)."""
+    from sa import normalize
+    from sa.model import FuncInfo, set_parents
+    new = normalize.apply(f.node)
+    if new is None:
+        return f
+    set_parents(new)
+    new._parent = getattr(f.node, '_parent', None)
+    g = FuncInfo(f.module, new, f.cls, f.parent)
+    return g
